@@ -29,7 +29,7 @@ const (
 
 // Step is one element of a client call history.
 type Step struct {
-	Kind string `json:"k"`              // init | op | getstate | close
+	Kind string `json:"k"`              // init | op | getstate | close | srvdie (the server dies between two client calls)
 	Op   string `json:"op,omitempty"`   // operation name for k=op
 	Mode string `json:"mode,omitempty"` // server behaviour for k=init
 	Var  int    `json:"var,omitempty"`  // answer-shape variant
@@ -43,6 +43,8 @@ func (s Step) String() string {
 		return s.Op
 	case "getstate":
 		return "GetState"
+	case "srvdie":
+		return "<server dies>"
 	default:
 		return "Close"
 	}
@@ -88,6 +90,10 @@ func opStep(op string) Step            { return Step{Kind: "op", Op: op} }
 var (
 	stGet   = Step{Kind: "getstate"}
 	stClose = Step{Kind: "close"}
+	// stDie is not a client call: the server goes away between two calls (stdio: the server process is killed and
+	// reaped; HTTP: every connection is cut and the server resets connections until the next Initialize step
+	// scripts its behaviour again).
+	stDie = Step{Kind: "srvdie"}
 )
 
 func allOpSteps() []Step {
@@ -129,6 +135,10 @@ func fixedHistories(client string) []History {
 	add("close-first", false, cat([]Step{stClose, stGet}, allOpSteps(), []Step{initStep(mHealthy, 0), stGet}))
 	add("reinit-after-close", false, []Step{initStep(mHealthy, 0), stClose, stGet, initStep(mHealthy, 0), stGet, opStep("ListTools"), stClose, opStep("CallTool")})
 	add("second-initialize-variants", false, []Step{initStep(mHealthy, 0), initStep(mHealthy, 0), stGet, initStep(mError, 0), stGet, initStep(mMalA, 1), stGet, initStep(mDown, 0), stGet, opStep("ListTools")})
+	add("server-dies-after-handshake", false, cat([]Step{initStep(mHealthy, 0), stGet, stDie, stGet, stClose, stGet}, allOpSteps(), []Step{initStep(mHealthy, 0), stGet}))
+	add("server-dies-then-calls", false, []Step{initStep(mHealthy, 0), stDie, opStep("ListTools"), opStep("SendRootsListChangedNotification"), initStep(mHealthy, 0), stGet, stClose, stGet, opStep("ListTools"), opStep("CallTool"), stClose, stGet})
+	add("server-dies-before-handshake", false, []Step{stDie, stGet, opStep("ListTools"), initStep(mHealthy, 0), stGet, stClose, stGet, opStep("ListPrompts")})
+	add("server-dies-after-failed-handshake", false, []Step{initStep(mError, 0), stDie, stGet, opStep("ListTools"), stClose, stGet, opStep("ReadResource")})
 	if client == ckStreamable {
 		add("stateless-server", false, cat([]Step{initStep(mNoSess, 0), stGet}, allOpSteps(), []Step{initStep(mNoSess, 0), stClose}, allOpSteps()))
 	}
@@ -157,6 +167,7 @@ func genHistories(rng *rand.Rand, client string, n int) []History {
 		{7.0, func() Step { return opStep(allOps[rng.Intn(len(allOps))]) }},
 		{1.0, func() Step { return stGet }},
 		{1.5, func() Step { return stClose }},
+		{1.2, func() Step { return stDie }},
 	}
 	total := 0.0
 	for _, t := range table {
